@@ -988,10 +988,13 @@ func truncStr(s string, n int) string {
 }
 
 func c13(r *vkit.Run) {
-	r.SetRule("worlds = complete file sets (host_rule, vip_rule, route_rule incl. BasicRule, cluster_conf, gslb, cluster_table) generated from the documented formats: every documented optional field present with p=2/3 and a documented value (Protocol http|fcgi, Schem http|tcp as in the examples, StatusCode 100-599, HashStrategy 0-2 with HashHeader whenever the strategy uses the client id, BalanceMode WRR, gslb weights summing to 100 incl. GSLB_BLACKHOLE, >=1 backend with positive weight per sub-cluster), conditions from a list of documented expressions, half of the worlds with basic rules targeting ADVANCED_MODE. (a) each world must be accepted by LoadServerDataConf and BalTable.Init. (b) one reference of a world is broken (rule cluster, rule product, default product, vip product, gslb cluster without cluster_table entry, cluster dropped from cluster_conf); if the loaders accept, the structures they parsed are walked for dangling references. (c) one file of a world gets 1-3 structure-aware mutations (null, wrong type, boundary numbers, deleted/duplicated/renamed keys, retargeted strings, grown/emptied containers, replaced root) and in 1/5 of the cases a byte-level corruption (truncate, delete byte, stray token, empty, 20000-deep nesting, doubled), 1/40 absent file; the single loader, LoadServerDataConf, BalTable.Init and - when accepted - a few Lookup/Balance calls run under recover. Module rule files: see rule_module_rule_files. Non-trivial = (b) every case, (c) well-formed JSON that differs from the original; distinct = file contents")
+	r.SetRule("worlds = complete file sets (host_rule, vip_rule, route_rule incl. BasicRule, cluster_conf, gslb, cluster_table) generated from the documented formats: every documented optional field present with p=2/3 and a documented value (Protocol http|fcgi, Schem http|tcp as in the examples, StatusCode 100-599, HashStrategy 0-2 with HashHeader whenever the strategy uses the client id, BalanceMode WRR, gslb weights summing to 100 incl. GSLB_BLACKHOLE, >=1 backend with positive weight per sub-cluster), conditions from a list of documented expressions, half of the worlds with basic rules targeting ADVANCED_MODE. (a) each world must be accepted by LoadServerDataConf and BalTable.Init. (b) one reference of a world is broken (rule cluster, rule product, default product, vip product, gslb cluster without cluster_table entry, cluster dropped from cluster_conf); if the loaders accept, the structures they parsed are walked for dangling references. (c) one file of a world gets 1-3 structure-aware mutations (null, wrong type, boundary numbers, deleted/duplicated/renamed keys, retargeted strings, grown/emptied containers, replaced root) and in 1/5 of the cases a byte-level corruption (truncate, delete byte, stray token, empty, 20000-deep nesting, doubled), 1/40 absent file; the single loader, LoadServerDataConf, BalTable.Init and - when accepted - a few Lookup/Balance calls run under recover. Module rule files: see rule_module_rule_files. Non-trivial = (b) every case, (c) well-formed JSON that differs from the original; distinct = file contents." + c13XrefRule)
 	r.Assume("'documented format' is the grammar above, derived from docs/en_us/configuration/** and docs/zh_cn/introduction/route.md; BasicRule's JSON shape (Hostname[], Path[], ClusterName) is taken from the loader's struct because no document shows it")
 	if r.Replay != "" {
 		if c13ModReplay(r) { // witness of a module rule file (c13mod.go)
+			return
+		}
+		if c13XrefReplay(r) { // witness of the cross-reference family (c13xref.go)
 			return
 		}
 		var w c13Witness
@@ -1068,5 +1071,6 @@ func c13(r *vkit.Run) {
 			r.Inconclusive("no mutated " + n + " was rejected: mutator too weak")
 		}
 	}
-	c13Modules(r) // module rule files (c13mod.go)
+	c13XrefFamily(r) // one broken cross-reference among many valid siblings, K loads each (c13xref.go)
+	c13Modules(r)    // module rule files (c13mod.go)
 }
